@@ -36,7 +36,9 @@ Inductive errclass :=
 | ENoKey                    (* NoSuchKey *)
 | EUndeclared (name : str)  (* UndeclaredReference *)
 | EArgCount                 (* InvalidArgumentCount / MissingArgumentOrTarget *)
-| EInvalid.                 (* every other type / argument / function error *)
+| EInvalid                  (* every other type / argument / function error *)
+| EOracle.                  (* not an error of the code: the model does not interpret this
+                               operation (an uninterpreted library call); wire form (any) *)
 
 (** The result of running a piece of the implementation: a value, an error, or a crash
     (panic / abort) at a numbered site. *)
@@ -93,4 +95,4 @@ Fixpoint str_of_string (s : string) : str :=
   | EmptyString => []
   | String a s' => N_of_ascii a :: str_of_string s'
   end.
-Notation "$ s" := (str_of_string s) (at level 1, only parsing).
+Notation "$ s" := (str_of_string s%string) (at level 1, only parsing).
